@@ -19,17 +19,25 @@ class RecProto(protocol.Protocol):
         self.events = []       # ("made",) ("data", bytes) ("lost", reason type)
         self.write_errors = []
 
+    react = None      # optional: called with (proto, kind) from inside the callback (an application that acts at once)
+
     def connectionMade(self):
         self.events.append(("made",))
         self.owner.log.append((self.owner.world.step, self.name, "made"))
+        if self.react:
+            self.react(self, "made")
 
     def dataReceived(self, data):
         self.events.append(("data", bytes(data)))
         self.owner.log.append((self.owner.world.step, self.name, "data", len(data)))
+        if self.react:
+            self.react(self, "data")
 
     def connectionLost(self, reason=None):
         self.events.append(("lost", getattr(getattr(reason, "type", None), "__name__", type(reason).__name__)))
         self.owner.log.append((self.owner.world.step, self.name, "lost"))
+        if self.react:
+            self.react(self, "lost")
 
 
 @implementer(interfaces.IHalfCloseableProtocol)
@@ -49,6 +57,8 @@ class RecFactory(protocol.Factory):
     def buildProtocol(self, addr):
         cls = HalfRecProto if self.half else RecProto
         p = cls(self.owner, "%s#%d" % (self.name, len(self.built)), addr)
+        if getattr(self, "react", None):
+            p.react = self.react
         self.built.append((getattr(addr, "subprotocol", None), p))
         self.owner.log.append((self.owner.world.step, self.name, "build", getattr(addr, "subprotocol", None)))
         return p
@@ -143,8 +153,11 @@ class ScriptDriver:
     """Random application script over subchannels: listen / open / write / close on both sides."""
 
     def __init__(self, dp, rng, names=("p0", "p1"), max_opens=3, max_writes=30, sizes=(1, 10, 200, 5000, 70000, (65490, 65545), (131010, 131070)),
-                 late_listen=0.3, half=0.0, close_prob=0.5, listen_names=None, pauses=0):
+                 late_listen=0.3, half=0.0, close_prob=0.5, listen_names=None, pauses=0, reactive=0):
         self.dp, self.rng = dp, rng
+        self.reactions = reactive      # budget of writes/closes made from inside connectionMade/dataReceived/connectionLost
+        self.reactions_done = 0
+        self.late_write_results = []   # (proto name, exception type or None) for writes attempted from connectionLost
         self.pauses = pauses           # budget of application-level pauseProducing() calls (each is resumed later)
         self.pauses_done = 0
         self.resumes_offline = 0
@@ -169,14 +182,37 @@ class ScriptDriver:
         self.write_errors = []
         self.stop = False
 
+    def _react(self, p, kind):
+        if self.reactions <= 0 or self.stop or self.rng.random() < 0.5:
+            return
+        self.reactions -= 1
+        self.reactions_done += 1
+        if kind == "lost":
+            try:
+                p.transport.write(b"from connectionLost")
+                self.late_write_results.append((p.name, None))
+            except Exception as e:
+                self.late_write_results.append((p.name, type(e).__name__))
+            return
+        if getattr(p, "closed_local", False):
+            return
+        if kind == "data" and self.rng.random() < 0.25:
+            self.close(p)
+        else:
+            self.write(p)
+
     def listen(self, side, name):
         f = RecFactory(self.dp, "%s.accept[%s]" % (side, name), half=self.rng.random() < self.half)
+        if self.reactions:
+            f.react = self._react
         f.sent_by = {}
         self.factories[side][name] = f
         self.dp.dilate(side).listener_for(name).listen(f).addCallback(lambda port: self.listening[side].add(name))
 
     def open(self, side, name):
         f = RecFactory(self.dp, "%s.open[%s]" % (side, name), half=self.rng.random() < self.half)
+        if self.reactions:
+            f.react = self._react
         rec = {"side": side, "name": name, "proto": None, "failure": None, "factory": f, "step": self.world.step}
         self.opens.append(rec)
         d = self.dp.dilate(side).connector_for(name).connect(f)
